@@ -211,7 +211,9 @@ impl BitWrite for BitBuffer {
 
     #[inline]
     fn write_bits_with_offset(&mut self, src: &[u8], src_bit_offset: usize) -> Result<(), Error> {
-        self.ensure_can_write_additional_bits(src.len() * BYTE_LEN - src_bit_offset);
+        self.ensure_can_write_additional_bits(
+            (src.len() * BYTE_LEN).saturating_sub(src_bit_offset),
+        );
         BitWrite::write_bits_with_offset(
             &mut (&mut self.buffer[..], &mut self.write_position),
             src,
